@@ -304,7 +304,251 @@ def sni_host_name(ctx):
     return out
 
 
-EVALUATED_CODECS = {'DnsNameUncompressed': dns_name}
+def dnskey_record(ctx):
+    """DnsRecordDnskey: flags(2) protocol(1) algorithm(1) public key, the key in the format of its algorithm (RFC 3110 RSA,
+    RFC 2536 DSA, RFC 6605 ECDSA, RFC 5933 GOST, RFC 8080 EdDSA).  Which key format is read and written is a dispatch on the
+    algorithm - an if / elif chain today, a table of method names tomorrow - so instead of comparing two dispatch shapes,
+    _parse and compose are evaluated from their own statements (sa.miniexec) on one record per algorithm of the registry:
+    the record has to be read completely, the key object handed to the library has to carry the numbers of the wire, and
+    compose has to give the record back.  The key object is modelled as the dependency builds it (key_size of an EC key is what
+    asn1crypto derives from the point: eight times the octets of the longer coordinate).
+    {'evaluated', 'why', 'runs', 'problems': {'parse': text, 'compose': text}, 'unhandled': {algorithm: text}}"""
+    if 'dnskey' in _CACHE:
+        return _CACHE['dnskey']
+    import math
+    from .miniexec import Evaluator, EnumVal, Native, NativeError, Obj, Raised, Unsupported, class_call_hook, exception_values
+    out = {'evaluated': False, 'why': '', 'runs': 0, 'problems': {}, 'unhandled': {}}
+    _CACHE['dnskey'] = out
+    model = ctx.model
+    c = model.try_cls('DnsRecordDnskey')
+    alg_cls, sig_cls, auth_cls = model.try_cls('DnsSecAlgorithm'), model.try_cls('Signature'), model.try_cls('Authentication')
+    fp = c.methods.get('_parse') if c is not None else None
+    fc = c.methods.get('compose') if c is not None else None
+    if fp is None or fc is None or alg_cls is None or sig_cls is None or auth_cls is None or not alg_cls.enum_members:
+        out['why'] = 'DnsRecordDnskey._parse / compose or the algorithm registries not found'
+        return out
+
+    class NotEnoughData(NativeError):
+        pass
+
+    class Parser(Native):
+        def __init__(self, data):
+            self.data, self.parsed_length, self.values = bytes(data), 0, {}
+
+        @property
+        def unparsed_length(self):
+            return len(self.data) - self.parsed_length
+
+        def take(self, n):
+            if not isinstance(n, int) or n < 0:
+                raise Unsupported('read of %r octets' % (n,))
+            if self.unparsed_length < n:
+                raise NotEnoughData(n - self.unparsed_length)
+            raw = self.data[self.parsed_length:self.parsed_length + n]
+            self.parsed_length += n
+            return raw
+
+        def parse_numeric(self, name, size, converter=None):
+            v = int.from_bytes(self.take(size), 'big')
+            # a number read through an enum class stands for the member with that value
+            self.values[name] = v if converter is None or converter is int else Obj(value=v, name='member %d' % v)
+
+        def parse_numeric_flags(self, name, size, flags_class, shift_left=0):
+            self.values[name] = ('flags', int.from_bytes(self.take(size), 'big'))
+
+        def parse_parsable(self, name, factory, item_size=None):
+            code = int.from_bytes(self.take(1), 'big')
+            if code not in by_code:
+                raise Unsupported('algorithm code %d' % code)
+            self.values[name] = by_code[code]
+
+        def parse_raw(self, name, size):
+            self.values[name] = bytearray(self.take(size))
+
+        def parse_mpint(self, name, length):
+            self.values[name] = int.from_bytes(self.take(length), 'big')
+
+        def __getitem__(self, name):
+            return self.values[name]
+
+        def __delitem__(self, name):
+            del self.values[name]
+
+    class InvalidValueError(NativeError):
+        pass
+    InvalidValueError.__name__ = 'InvalidValue'
+
+    class Composer(Native):
+        def __init__(self):
+            self.out = bytearray()
+
+        def compose_numeric(self, value, size):
+            self.out += int(value).to_bytes(size, 'big')
+
+        def compose_numeric_flags(self, value, size, shift_right=0):
+            self.out += int(value[1] if isinstance(value, tuple) else 0).to_bytes(size, 'big')
+
+        def compose_numeric_enum_coded(self, value):
+            self.out += int(value.value.code).to_bytes(1, 'big')
+
+        def compose_parsable(self, value):
+            self.out += int(value.value.code).to_bytes(1, 'big')
+
+        def compose_mpint(self, value, length):
+            try:
+                self.out += int(value).to_bytes(length, 'big')
+            except (OverflowError, ValueError):
+                raise InvalidValueError(value)
+
+        def compose_raw(self, value):
+            self.out += bytes(value)
+
+        @property
+        def composed_bytes(self):
+            return bytearray(self.out)
+
+        @property
+        def composed_length(self):
+            return len(self.out)
+
+        composed = composed_bytes
+
+    def octets(n):
+        return (n.bit_length() + 7) // 8
+
+    class Key(Native):
+        """what PublicKey.from_params builds: the parameters, the key type of the parameter class, key_size as asn1crypto gives it"""
+
+        def __init__(self, kind, params):
+            self.params, self.kind = params, kind
+            self.key_type = EnumVal.of(auth_cls, {'rsa': 'RSA', 'dsa': 'DSS', 'ecdsa': 'ECDSA', 'eddsa': 'EDDSA'}[kind])
+
+        @property
+        def key_size(self):
+            p = self.params
+            if self.kind == 'ecdsa':
+                return 8 * max(octets(p.point_x), octets(p.point_y), 1)
+            if self.kind == 'eddsa':
+                return p.curve_type.value.size
+            prime = p.modulus if self.kind == 'rsa' else p.prime
+            bits = int(math.ceil(math.log(prime, 2)))
+            return bits + (-bits % 8)
+    KINDS = {'PublicKeyParamsRsa': 'rsa', 'PublicKeyParamsDsa': 'dsa', 'PublicKeyParamsEcdsa': 'ecdsa', 'PublicKeyParamsEddsa': 'eddsa'}
+    made = {}
+    exc = exception_values('InvalidValue', 'InvalidType', 'NotEnoughData', 'TooMuchData')
+
+    def extra(n, ev):
+        d = ast.unparse(n.func)
+        if d == 'ParserBinary':
+            return Parser(ev.ev(n.args[0]))
+        if d == 'ComposerBinary':
+            return Composer()
+        if d in KINDS:
+            kw = {k.arg: ev.ev(k.value) for k in n.keywords if k.arg}
+            return Obj(_kind=KINDS[d], **kw)
+        if d == 'PublicKey.from_params':
+            prm = ev.ev(n.args[0])
+            return Key(prm._kind, prm)
+        if d in ('cls', 'DnsRecordDnskey') and (n.args or n.keywords):
+            args = [ev.ev(a) for a in n.args]
+            names = ['flags', 'algorithm', 'key', 'protocol']
+            kw = dict(zip(names, args))
+            kw.update({k.arg: ev.ev(k.value) for k in n.keywords if k.arg})
+            made.update(kw)
+            return ('record',)
+        if d == 'len' and len(n.args) == 1:
+            return NotImplemented
+        return exc(n, ev)
+
+    def names(name):
+        raise Unsupported('free name ' + name)
+    # the registry rows, with the signature algorithm a row names resolved to a model of the Signature member
+    by_code, algs = {}, {}
+    for name in alg_cls.enum_members:
+        ev_ = EnumVal.of(alg_cls, name)
+        ref = getattr(ev_.value, 'algorithm', None)
+        if isinstance(ref, str):
+            row = sig_cls.enum_members.get(ref)
+            kt = getattr(row, 'fields', {}).get('key_type') if row is not None else None
+            if row is not None and isinstance(kt, str) and kt in auth_cls.enum_members:
+                ev_.value.algorithm = Obj(name=ref, value=Obj(key_type=EnumVal.of(auth_cls, kt)), _isa={'Signature', 'Enum'})
+            else:
+                ev_.value.algorithm = Obj(name=ref, value=Obj(name=ref + ' parameters', _strict=True), _isa={'KeyExchange', 'Enum'}, _strict=True)    # not a signature: no key type
+        algs[name] = ev_
+        if isinstance(getattr(ev_.value, 'code', None), int):
+            by_code[ev_.value.code] = ev_
+
+    def key_octets(kt, name):
+        """a key in the format the RFC of the algorithm gives (None: no format known to the table below)"""
+        if kt == 'RSA':
+            return [b'\x03\x01\x00\x01' + b'\xc1' * 128, b'\x00\x01\x00' + b'\x81' + b'\x00' * 255 + b'\xc3' * 256]
+        if kt == 'DSS':
+            return [b'\x01' + b'\x91' * 20 + b'\xd5' * 72 + (b'\x22' * 71).rjust(72, b'\x00') + (b'\x33' * 70).rjust(72, b'\x00')]
+        if kt in ('ECDSA', 'GOST_R3410_01'):
+            n = 48 if '384' in name else 32
+            return [b'\xa1' * n + b'\xb2' * n, (b'\x5a' * (n - 1)).rjust(n, b'\x00') + (b'\x6b' * (n - 2)).rjust(n, b'\x00')]
+        if kt == 'EDDSA':
+            return [b'\xe4' * 32] if '25519' in name else None       # Ed448: the 56 / 57 octet question is C08.R4's
+        return None
+    hook = class_call_hook(c, extra, model)
+    nh = hook.name_hook_for(c.module, names)
+    DOCUMENTED = ('InvalidValue', 'InvalidType', 'NotEnoughData', 'TooMuchData')
+    try:
+        # every algorithm code of the registry, on keys of several sizes: only the documented parse errors may come out
+        for name, alg in sorted(algs.items()):
+            if not isinstance(getattr(alg.value, 'code', None), int):
+                continue
+            for key in (b'', b'\x01' * 32, b'\x01' * 57, b'\x01\x03' + b'\xc1' * 128, b'\x01' * 237):
+                out['runs'] += 1
+                try:
+                    Evaluator({'cls': 'cls', 'parsable': b'\x01\x01\x03' + bytes([alg.value.code]) + key}, hook, nh).function(fp.node)
+                except Raised as e:
+                    kind = e.what.split('(')[0].split('.')[-1].strip()
+                    if kind not in DOCUMENTED:
+                        out['unhandled'].setdefault(name, 'a DNSKEY record with algorithm %s (code %d) and a key of %d octets ends in %s, not in one of the parse errors' % (
+                            name, alg.value.code, len(key), e.what[:60]))
+        for name, alg in sorted(algs.items()):
+            sig = getattr(alg.value, 'algorithm', None)
+            kt_val = getattr(getattr(sig, 'value', None), 'key_type', None)
+            kt = getattr(kt_val, 'name', None)
+            if kt is None:
+                continue        # not a signature algorithm (DELETE, DH, INDIRECT, ...): it has no key format
+            keys = key_octets(kt, name)
+            if keys is None:
+                continue
+            for key in keys:
+                wire = b'\x01\x01\x03' + bytes([alg.value.code]) + key
+                out['runs'] += 1
+                made.clear()
+                try:
+                    got = Evaluator({'cls': 'cls', 'parsable': wire}, hook, nh).function(fp.node)
+                except Raised as e:
+                    if 'NotImplementedError' in e.what:
+                        out['unhandled'].setdefault(name, 'DNSSEC algorithm %s has key type %s, which parse_key does not handle: %s escapes' % (name, kt, e.what[:50]))
+                    else:
+                        out['problems'].setdefault('parse', 'a %s record with a %d octet key in the format of its RFC is refused (%s)' % (name, len(key), e.what[:60]))
+                    continue
+                if not (isinstance(got, tuple) and len(got) == 2 and got[1] == len(wire)) or not isinstance(made.get('key'), Key):
+                    out['problems'].setdefault('parse', 'a %s record of %d octets parses to %r (consumed %r)' % (name, len(wire), got[0] if isinstance(got, tuple) else got, got[1] if isinstance(got, tuple) and len(got) == 2 else None))
+                    continue
+                me = Obj(flags=made.get('flags'), algorithm=made.get('algorithm'), key=made.get('key'), protocol=made.get('protocol'), _repo_class=c)
+                try:
+                    again = Evaluator({'self': me}, hook, nh).function(fc.node)
+                except Raised as e:
+                    out['problems'].setdefault('compose', 'the %s record read from %d octets cannot be composed (%s)' % (name, len(wire), e.what[:60]))
+                    continue
+                if bytes(again) != wire:
+                    lead = ' (coordinates with leading zero octets)' if key[:1] == b'\x00' else ''
+                    out['problems'].setdefault('compose', 'a %s record%s of %d octets is composed back as %d octets: %s... instead of %s...' % (
+                        name, lead, len(wire), len(bytes(again)), bytes(again)[:10].hex(), wire[:10].hex()))
+    except Unsupported as e:
+        out['why'] = str(e)
+        return out
+    out['evaluated'] = True
+    return out
+
+
+EVALUATED_CODECS = {'DnsNameUncompressed': dns_name, 'DnsRecordDnskey': dnskey_record}
 # codecs whose decode side accepts more than the encode side writes: accepted input must be composable (C05.R1)
 ACCEPTANCE_CODECS = {'DnsNameUncompressed': dns_name, 'TlsExtensionServerNameClient': sni_host_name}
 
